@@ -71,6 +71,17 @@ class RecInterp(itereval.IterInterp):
             return self.self_rec
         if e.get("t") == "Index" and strip_paren(e["index"]).get("t") == "Range":
             return self.eval_range_index(e, env)
+        if e.get("t") == "ForLoop" and not e.get("__keys"):
+            it_ = self.eval(e["expr"], env)
+            if isinstance(it_, MapV):
+                it_ = list(it_.keys())
+            scope = env.child()
+            scope.bind("__iter", it_)
+            e2 = dict(e)
+            e2["__keys"] = True
+            e2["expr"] = {"t": "PathExpr", "qself": None, "sp": e["expr"].get("sp"),
+                          "path": {"t": "Path", "global": False, "name": "__iter", "s": "__iter", "sp": e["expr"].get("sp"), "segs": [{"id": "__iter", "args": None}]}}
+            return super().eval(e2, scope)
         if e.get("t") == "MethodCall":
             recv = self.eval(e["receiver"], env)
             if recv is self.self_rec:
@@ -82,6 +93,16 @@ class RecInterp(itereval.IterInterp):
                 if name in self.fns and len(self.fns[name]) == 1:
                     return self.call_method(self.fns[name][0], args)
                 raise Unanalysable(f"self.{name}() is not a function of {self.path}")
+            if isinstance(recv, Rec) and recv is not self.self_rec and e["method"] in self.fns and len(self.fns[e["method"]]) == 1 \
+                    and self.fns[e["method"]][0]["sig"]["inputs"] and self.fns[e["method"]][0]["sig"]["inputs"][0]["t"] == "Receiver":
+                # a method of the file called on another record: that record is `self` inside it
+                args = [self.eval(a, env) for a in e["args"]]
+                saved = self.self_rec
+                self.self_rec = recv
+                try:
+                    return self.call_method(self.fns[e["method"]][0], args)
+                finally:
+                    self.self_rec = saved
             if isinstance(recv, Opt) and e["method"] in ("get_or_insert", "get_or_insert_with", "insert", "take", "replace"):
                 # methods that change the Option in place: the receiver is a place and gets the new value
                 args = [self.eval(a, env) for a in e["args"]]
@@ -149,6 +170,43 @@ class RecInterp(itereval.IterInterp):
     def struct_expr(self, name, fields, node):
         return Rec(fields)
 
+    MUTATORS = ("insert", "push", "remove", "pop", "clear", "extend", "push_str", "retain", "drain", "swap_remove", "take", "replace", "entry",
+                "or_default", "or_insert", "or_insert_with", "get_or_insert", "get_or_insert_with", "truncate", "resize", "append", "sort", "dedup")
+
+    def macro(self, name, mac, env, node):
+        base = name.split("::")[-1]
+        if base in ("debug_assert", "debug_assert_eq", "debug_assert_ne"):
+            # not evaluated in release builds: a condition that changes state makes the two profiles differ
+            from common import walk
+            for a_ in mac.get("args") or []:
+                for n_ in walk(a_):
+                    if n_.get("t") == "MethodCall" and n_["method"] in self.MUTATORS:
+                        from rusteval import Reached
+                        raise Reached(f"`.{n_['method']}(..)` inside {base}!: the effect does not happen in release builds", node)
+                    if n_.get("t") in ("Assign",) or (n_.get("t") == "Binary" and n_["op"].endswith("=") and n_["op"] not in ("==", "!=", "<=", ">=")):
+                        from rusteval import Reached
+                        raise Reached(f"assignment inside {base}!: the effect does not happen in release builds", node)
+            if mac.get("args") is None:
+                raise Unanalysable(f"{base}! with arguments that cannot be parsed")
+            return UNIT
+        if base in ("assert", "assert_eq", "assert_ne"):
+            args = mac.get("args")
+            if args is None:
+                raise Unanalysable(f"{base}! with arguments that cannot be parsed")
+            try:
+                if base == "assert":
+                    ok = self.cond(args[0], env)
+                else:
+                    eq = self.equal(self.eval(args[0], env), self.eval(args[1], env), node)
+                    ok = eq if base == "assert_eq" else not eq
+            except Unanalysable:
+                return UNIT          # a check the domain cannot decide: no effect on the state either way
+            if not ok:
+                from rusteval import Reached
+                raise Reached(f"{base}! fails", node)
+            return UNIT
+        return super().macro(name, mac, env, node)
+
     def call_method(self, fn, args):
         env = Env()
         ps = [p_ for p_ in fn["sig"]["inputs"] if p_["t"] == "Arg"]
@@ -187,7 +245,14 @@ class RecInterp(itereval.IterInterp):
     def call(self, name, targs, args, node):
         if name == "Some" and len(args) == 1:
             return Some(args[0])
+        if name.split("::<")[0] in self.scripted:
+            self.calls.append((name.split("::<")[0], tuple(args)))
+            return self.scripted[name.split("::<")[0]](self, *args)
         base = name.split("::<")[0]
+        if base.startswith("Self::") and base.count("::") == 1 and base[6:] in self.fns and len(self.fns[base[6:]]) == 1:
+            fn_ = self.fns[base[6:]][0]
+            if not (fn_["sig"]["inputs"] and fn_["sig"]["inputs"][0]["t"] == "Receiver"):
+                return self.call_method(fn_, args)
         if base.split("::")[-1] in ("new", "with_capacity", "default") and len(base.split("::")) >= 2:
             ty = base.split("::")[-2]
             if ty in ("Vec", "SmallVec", "VecDeque"):
@@ -202,6 +267,12 @@ class RecInterp(itereval.IterInterp):
     def path_value(self, name, node):
         if name == "None":
             return NONE
+        import re as _re
+        m_ = _re.fullmatch(r"(?:std::|core::)?([ui])(8|16|32|64|128|size)::(BITS|MAX|MIN)", name)
+        if m_:
+            bits = 64 if m_.group(2) == "size" else int(m_.group(2))
+            signed = m_.group(1) == "i"
+            return {"BITS": bits, "MAX": (1 << (bits - 1 if signed else bits)) - 1, "MIN": -(1 << (bits - 1)) if signed else 0}[m_.group(3)]
         last = name.split("::")[-1]
         if "::" in name and last[:1].isupper():
             return itereval.Ctor(name, [])
